@@ -4,11 +4,15 @@
 package vsend
 
 import (
+	"errors"
 	"flag"
 	"fmt"
+	"github.com/quickfixgo/quickfix/log/screen"
 	"os"
 	"path/filepath"
+	"runtime"
 	"strconv"
+	"strings"
 	"sync"
 	"sync/atomic"
 	"time"
@@ -61,11 +65,11 @@ func (f *recFactory) Create(id quickfix.SessionID) (quickfix.MessageStore, error
 
 type app struct{}
 
-func (app) OnCreate(quickfix.SessionID)                          {}
-func (app) OnLogon(quickfix.SessionID)                           {}
-func (app) OnLogout(quickfix.SessionID)                          {}
-func (app) ToAdmin(*quickfix.Message, quickfix.SessionID)        {}
-func (app) ToApp(*quickfix.Message, quickfix.SessionID) error    { return nil }
+func (app) OnCreate(quickfix.SessionID)                       {}
+func (app) OnLogon(quickfix.SessionID)                        {}
+func (app) OnLogout(quickfix.SessionID)                       {}
+func (app) ToAdmin(*quickfix.Message, quickfix.SessionID)     {}
+func (app) ToApp(*quickfix.Message, quickfix.SessionID) error { return nil }
 func (app) FromAdmin(*quickfix.Message, quickfix.SessionID) quickfix.MessageRejectError {
 	return nil
 }
@@ -94,7 +98,11 @@ func runOnce(kind, repo string, senders, per, rounds int, runID int) (row tr.M, 
 	ss.Set(config.SenderCompID, id.SenderCompID)
 	ss.Set(config.TargetCompID, id.TargetCompID)
 	ss.Set(config.SessionQualifier, id.Qualifier)
-	v, err := quickfix.VerifNewSession(id, rf, ss, quickfix.NewNullLogFactory(), app{}, false)
+	var lf quickfix.LogFactory = quickfix.NewNullLogFactory()
+	if os.Getenv("VERIF_DEBUG") != "" {
+		lf = screen.NewLogFactory()
+	}
+	v, err := quickfix.VerifNewSession(id, rf, ss, lf, app{}, false)
 	if err != nil {
 		return nil, err
 	}
@@ -194,7 +202,7 @@ func runOnce(kind, repo string, senders, per, rounds int, runID int) (row tr.M, 
 		in.Put(inbound("1", peerSeq, fixscan.F(112, tid)))
 		peerSeq++
 		if !waitHB(tid) {
-			return nil, fmt.Errorf("no heartbeat for %s within 10s (engine stuck?)", tid)
+			return nil, silent(v, tid)
 		}
 		wmu.Lock()
 		to := len(wire)
@@ -210,7 +218,7 @@ func runOnce(kind, repo string, senders, per, rounds int, runID int) (row tr.M, 
 	in.Put(inbound("1", peerSeq, fixscan.F(112, "END")))
 	peerSeq++
 	if !waitHB("END") {
-		return nil, fmt.Errorf("no final heartbeat (engine stuck?)")
+		return nil, silent(v, "END")
 	}
 	time.Sleep(50 * time.Millisecond)
 	v.RunStop()
@@ -258,6 +266,27 @@ func runOnce(kind, repo string, senders, per, rounds int, runID int) (row tr.M, 
 	return row, nil
 }
 
+// errAborted: the session left the logged-on state on its own during the run (e.g. the store
+// returned an error and the engine logged out): the run says nothing about C02 and is skipped
+var errAborted = errors.New("run aborted")
+
+// silent decides what a missing heartbeat means: a session that is still logged on and does not
+// answer is stuck; a session that logged out / disconnected by itself made the run void.
+func silent(v *quickfix.VerifSession, tid string) error {
+	st := v.StateName()
+	if st == "inSession" || st == "resend" || strings.HasPrefix(st, "pending") {
+		dumpStacks()
+		return fmt.Errorf("no heartbeat for %s within 10s, session state %s (engine stuck?)", tid, st)
+	}
+	return fmt.Errorf("%w: no heartbeat for %s, the session is in state %s", errAborted, tid, st)
+}
+
+func dumpStacks() {
+	buf := make([]byte, 1<<20)
+	n := runtime.Stack(buf, true)
+	os.Stderr.Write(buf[:n])
+}
+
 // Main: vh send -out trace.ndjson -store memory -runs 3 -senders 4 -per 150 -rounds 6
 func Main(args []string) int {
 	fs := flag.NewFlagSet("send", flag.ExitOnError)
@@ -275,6 +304,10 @@ func Main(args []string) int {
 	}
 	for i := 0; i < *runs; i++ {
 		row, err := runOnce(*kind, *repo, *senders, *per, *rounds, i)
+		if errors.Is(err, errAborted) {
+			fmt.Fprintln(os.Stderr, "send: skipped:", err)
+			continue
+		}
 		if err != nil {
 			fmt.Fprintln(os.Stderr, "send:", err)
 			w.Close()
